@@ -5,6 +5,9 @@ mod c20;
 mod c20x;
 mod fw;
 mod gen_dlt;
+mod lc;
+mod sh;
+mod world;
 mod rng;
 mod scripted;
 
@@ -17,6 +20,9 @@ macro_rules! registry {
             "C01" => $mac!(c01::C01),
             "C02" => $mac!(c02::C02),
             "C04" => $mac!(c04::C04),
+            "C05" => $mac!(lc::C05),
+            "C07" => $mac!(lc::C07),
+            "C08" => $mac!(lc::C08),
             "C20" => $mac!(c20::C20),
             other => {
                 eprintln!("HARNESS-ERROR unknown check id {}", other);
@@ -26,7 +32,7 @@ macro_rules! registry {
     };
 }
 
-pub const ALL_IDS: &[&str] = &["C01", "C02", "C04", "C20"];
+pub const ALL_IDS: &[&str] = &["C01", "C02", "C04", "C05", "C07", "C08", "C20"];
 
 fn arg_val(args: &[String], name: &str) -> Option<String> {
     args.iter()
@@ -86,7 +92,9 @@ fn main() {
                 seed,
                 jobs,
                 runs_override: runs,
-                write_evidence: digest_out.is_none() && !args.iter().any(|a| a == "--no-evidence"),
+                write_evidence: digest_out.is_none()
+                    && !args.iter().any(|a| a == "--no-evidence")
+                    && std::env::var("VERIF_NO_EVIDENCE").is_err(),
                 digest_out,
             };
             std::process::exit(drive_id(id, o));
